@@ -3,6 +3,7 @@
 package c01
 
 import (
+	"os"
 	"bytes"
 	"fmt"
 	"testing"
@@ -24,9 +25,19 @@ type op struct {
 	Res   string         `json:"res,omitempty"`
 }
 
+// one recorder for the package: both TestC01 (index level) and TestC01Dataset
+// (dataset level) feed the same evidence
+var shared *mon.Recorder
+
+func TestMain(m *testing.M) {
+	shared = mon.Open("C01")
+	code := m.Run()
+	shared.Close()
+	os.Exit(code)
+}
+
 func TestC01(t *testing.T) {
-	rec := mon.Open("C01")
-	defer rec.Finish(t)
+	rec := shared
 	n := rec.N(16000, 400000)
 	for c := 0; c < n; c++ {
 		if rec.Mine(c) {
